@@ -575,7 +575,7 @@ static ares_status_t ares_sysconfig_apply(ares_channel_t         *channel,
     channel->rotate = sysconfig->rotate;
   }
 
-  if (sysconfig->usevc) {
+  if (sysconfig->usevc && !(channel->optmask & ARES_OPT_FLAGS)) {
     channel->flags |= ARES_FLAG_USEVC;
   }
 
